@@ -264,8 +264,13 @@ def rand_de43(rng, codec, vmax):
         return t
     for _ in range(20):
         pc = ''.join(rng.choice('0123456789 ') for _ in range(10))
-        if rng.random() < 0.2:
+        r0 = rng.random()
+        if r0 < 0.12:
+            pc = ' ' * 10                                # no postcode at all (e.g. Hong Kong)
+        elif r0 < 0.3:
             pc = pc[:rng.randint(0, 9)].ljust(10)
+        elif r0 < 0.36:
+            pc = pc[:rng.randint(1, 9)].rjust(10)        # blanks in front
         st = ''.join(rng.choice('ABCDEFGHIJKLMNOPQRSTUVWXYZ ') for _ in range(3))
         co = ''.join(rng.choice('ABCDEFGHIJKLMNOPQRSTUVWXYZ' + (' \t' if rng.random() < 0.15 else '')) for _ in range(3))
         s = part(22) + '\\' + part(30) + '\\' + part(13) + '\\' + pc + st + co
@@ -407,6 +412,93 @@ def ref_de43(s, pattern):
                 return {'DE43_NAME': part(0, b1), 'DE43_ADDRESS': part(b1 + 1, b2), 'DE43_SUBURB': part(b2 + 1, b3),
                         'DE43_POSTCODE': tail[:10].rstrip(), 'DE43_STATE': tail[10:13], 'DE43_COUNTRY': tail[13:16]}
     return {}
+
+
+SAME_WIDTH = {6: ['%y%m%d', '%d%m%y', '%m%d%y', '%H%M%S'], 4: ['%m%d', '%d%m', '%H%M', '%M%S'], 8: ['%Y%m%d', '%d%m%Y']}
+
+
+def collision_cases(rng, n):
+    """Cases in which the SAME raw text is read under different configurations: datetime elements of equal width but
+    different formats carrying identical digits, an int and a text element with those digits too, and - `warm` - further
+    calls made BEFORE the case's own call in the same process: the same digits under another format / codec, or another
+    configuration presented in the SAME dict object (edited in place, `how: inplace`) or in a short-lived copy that is
+    dropped before the next one is made (`how: fresh`: CPython then tends to hand out the same id()).  Anything keyed by
+    the raw text or by the identity of the configuration (a memo table, a shared buffer) shows up here; the model has no
+    state, so it is the reference.  Each case: cfg, codec, hex, msg (protocol text), warm (list of such, with `how`)."""
+    out = []
+    for i in range(n):
+        w = rng.choice([6, 6, 4, 8])
+        fmts = SAME_WIDTH[w]
+        if w == 8:
+            digits = '%02d%02d%02d%02d' % (rng.randint(10, 12), rng.randint(10, 12), rng.randint(10, 12), rng.randint(10, 12))
+            # valid as %Y%m%d (year 10xx-12xx) and as %d%m%Y
+        else:
+            digits = ''.join('%02d' % rng.randint(1, 12) for _ in range(w // 2))
+        codec = rng.choice(CODECS)
+
+        def mk(order, with_pds):
+            bits = sorted(rng.sample(range(2, 128), len(order) + 4))
+            cfg, m = {}, {'MTI': '%04d' % rng.randrange(10000)}
+            for b, f in zip(bits, order):
+                cfg[str(b)] = {'field_name': 'd%d' % b, 'field_type': 'FIXED', 'field_length': w, 'field_python_type': 'datetime', 'field_date_format': f}
+                m['DE%d' % b] = datetime.datetime.strptime(digits, f)
+            cfg[str(bits[-4])] = {'field_name': 'n', 'field_type': 'FIXED', 'field_length': w, 'field_python_type': 'int'}
+            m['DE%d' % bits[-4]] = int(digits)
+            cfg[str(bits[-3])] = {'field_name': 't', 'field_type': 'FIXED', 'field_length': w}
+            m['DE%d' % bits[-3]] = digits
+            # two PDS carriers at positions that differ from configuration to configuration
+            for b in bits[-2:]:
+                cfg[str(b)] = {'field_name': 'c%d' % b, 'field_type': 'LLLVAR', 'field_length': 0, 'field_processor': 'PDS'}
+            if with_pds:
+                m['PDS%04d' % rng.randrange(10000)] = digits
+                if rng.random() < 0.5:
+                    m['PDS%04d' % rng.randrange(10000)] = rand_text(rng, codec, rng.choice([1, 30, 600, 900]))
+            return cfg, m
+        cfg, m = mk(rng.sample(fmts, rng.randint(2, len(fmts))), rng.random() < 0.6)
+        case = {'cfg': cfg, 'codec': codec, 'hex': rng.random() < 0.5, 'msg': dict_text(m)}
+        if i % 3:
+            warm = []
+            for _ in range(rng.randint(1, 2)):
+                wcfg, wm = mk(rng.sample(fmts, rng.randint(1, len(fmts))), rng.random() < 0.7)
+                warm.append({'cfg': wcfg, 'codec': rng.choice([codec, rng.choice(CODECS)]), 'hex': rng.random() < 0.5, 'msg': dict_text(wm),
+                             'how': ['plain', 'inplace', 'fresh'][i % 3 + (_ % 2) if i % 3 + (_ % 2) < 3 else 0]})
+            case['warm'] = warm
+        out.append(case)
+    return out
+
+
+def run_warm(case, call):
+    """the calls a case wants made before its own; returns the configuration OBJECT to use for the case's own call
+    (for `inplace` the very dict the warm calls used, now holding the case's configuration)"""
+    import copy
+    import gc
+    shared = None
+    for w in case.get('warm', ()):
+        how = w.get('how', 'plain')
+        if how == 'inplace':
+            if shared is None:
+                shared = {}
+            shared.clear()
+            shared.update(copy.deepcopy(w['cfg']))
+            c = shared
+        elif how == 'fresh':
+            c = copy.deepcopy(w['cfg'])
+        else:
+            c = w['cfg']
+        try:
+            call(w, c)
+        except Exception:
+            pass
+        if how == 'fresh':
+            del c
+            gc.collect()
+    if shared is not None and case.get('cfg') is not None:
+        shared.clear()
+        shared.update(copy.deepcopy(case['cfg']))
+        return shared
+    if case.get('cfg') is not None and any(w.get('how') == 'fresh' for w in case.get('warm', ())):
+        return copy.deepcopy(case['cfg'])
+    return case.get('cfg')
 
 
 def expected_back(cfg, k, v):
